@@ -334,3 +334,5 @@ func storesToField(fn *ssa.Function, fieldCanon string) []*ssa.Store {
 	}
 	return out
 }
+
+func typesPtr(t types.Type) types.Type { return types.NewPointer(t) }
